@@ -91,9 +91,18 @@ Holds(name, e) ==
             LET tr == Trailer(e)
             IN StrOK(tr[1], tr[2], e.module) /\ StrOK(tr[3], tr[4], e.classb) /\ StrOK(tr[5], tr[6], e.version)
     [] name = "DefaultCallSameKey" ->
-         \* make_cache_key(dataset) with its default hash object returns the digest of the very stream that was recorded
-         \* (also when it is asked again on the same dataset object after an edit in place)
-         (Ok(e) /\ "key_default" \in DOMAIN e.obs.ok) => e.obs.ok.key_default = e.obs.ok.key
+         \* make_cache_key(dataset) with its DEFAULT hash object (recorded by standing in for hashlib inside the cache
+         \* module) feeds the hash the same stream as the call with an explicit hash object - also when it is asked again on
+         \* the same dataset object after an edit in place - and, the marshalled attribute bytes being equal (F7), returns
+         \* the same key
+         (Ok(e) /\ "default" \in DOMAIN e.obs.ok) =>
+            LET d == e.obs.ok.default.payloads
+                nb == (Len(d) - 6) \div 11
+                sansd == [k \in 1..Len(d) |-> IF k <= 11 * nb /\ (k % 11 = 0 \/ k % 11 = 10) THEN <<>> ELSE d[k]]
+                marshd == {<<SubSeq(d, 11 * (k - 1) + 1, 11 * k)[2], SubSeq(d, 11 * (k - 1) + 1, 11 * k)[11]>> : k \in 1..nb}
+            IN /\ Len(d) >= 6 /\ (Len(d) - 6) % 11 = 0
+               /\ sansd = SansMarshal(e)
+               /\ (marshd = Marshals(e) => e.obs.ok.default.key = e.obs.ok.key)
     [] name = "SameGeometrySameKey" ->
          \* an earlier variant with the same abstract geometry fed the hash the same stream (the marshalled attribute
          \* bytes are judged separately by AttrsSerialisationFunctional) and, if those agree too, has the same key
